@@ -548,7 +548,8 @@ class A_ASSOCIATE_RQ(PDU):
         """Set the *Called AE Title* field value"""
         if isinstance(value, bytes):
             # PS3.8 Table 9-11: Leading and trailing spaces are non-significant
-            value = decode_bytes(value).strip()
+            #   (only spaces - other white space is not allowed in an AE title)
+            value = decode_bytes(value).strip(" ")
             if not value:
                 raise ValueError(
                     "Invalid 'Called AE Title' value - must not consist "
@@ -578,7 +579,8 @@ class A_ASSOCIATE_RQ(PDU):
         """
         if isinstance(value, bytes):
             # PS3.8 Table 9-11: Leading and trailing spaces are non-significant
-            value = decode_bytes(value).strip()
+            #   (only spaces - other white space is not allowed in an AE title)
+            value = decode_bytes(value).strip(" ")
             if not value:
                 raise ValueError(
                     "Invalid 'Calling AE Title' value - must not consist "
